@@ -5,6 +5,7 @@ import (
 
 	"github.com/pentops/j5/gen/j5/client/v1/client_j5pb"
 	"github.com/pentops/j5/gen/j5/schema/v1/schema_j5pb"
+	"github.com/pentops/j5/lib/id62"
 )
 
 // BuildSwagger converts the J5 Document to a Swagger Document
@@ -140,6 +141,28 @@ func convertSchema(schema *schema_j5pb.Field) (*Schema, error) {
 			return nil, err
 		}
 
+	case *schema_j5pb.Field_Bytes:
+		out.SchemaItem.Type = convertBytesItem(t.Bytes)
+
+	case *schema_j5pb.Field_Decimal:
+		out.SchemaItem.Type = &StringItem{
+			Format: Some("decimal"),
+		}
+
+	case *schema_j5pb.Field_Date:
+		out.SchemaItem.Type = &StringItem{
+			Format:  Some("date"),
+			Example: Maybe(stringExample(Ptr("date"))),
+		}
+
+	case *schema_j5pb.Field_Timestamp:
+		out.SchemaItem.Type = &StringItem{
+			Format: Some("date-time"),
+		}
+
+	case *schema_j5pb.Field_Key:
+		out.SchemaItem.Type = convertKeyItem(t.Key)
+
 	default:
 		return nil, fmt.Errorf("unknown schema type for swagger %T", t)
 	}
@@ -159,6 +182,34 @@ func convertStringItem(item *schema_j5pb.StringField) *StringItem {
 		out.MaxLength = Maybe(item.Rules.MaxLength)
 	}
 
+	return out
+}
+
+// convertBytesItem: bytes are base64 strings in JSON, the length rules count
+// decoded bytes so they have no JSON Schema equivalent.
+func convertBytesItem(_ *schema_j5pb.BytesField) *StringItem {
+	return &StringItem{
+		Format: Some("byte"),
+	}
+}
+
+// convertKeyItem: keys are strings in JSON, the key format gives the string
+// format or pattern.
+func convertKeyItem(item *schema_j5pb.KeyField) *StringItem {
+	out := &StringItem{}
+	if item.Format == nil {
+		return out
+	}
+	switch ft := item.Format.Type.(type) {
+	case *schema_j5pb.KeyFormat_Uuid:
+		out.Format = Some("uuid")
+		out.Example = Maybe(stringExample(Ptr("uuid")))
+	case *schema_j5pb.KeyFormat_Id62:
+		out.Format = Some("id62")
+		out.Pattern = Some(id62.PatternString)
+	case *schema_j5pb.KeyFormat_Custom_:
+		out.Pattern = Some(ft.Custom.Pattern)
+	}
 	return out
 }
 
